@@ -593,6 +593,9 @@ def run_grid(c):
             if cid < 0:
                 rec["oracle"].append("consumer-finds-no-cell")
                 continue
+            if any(cid >= len(v) // max(nc, 1) for nc, v in arrs.values()):
+                rec["oracle"].append("located-cell-has-no-tuple")
+                continue
             if "field" in arrs and arrs["field"][0] == nv:
                 got = arrs["field"][1][cid * nv:(cid + 1) * nv]
                 if got != list(vals[idx]):
